@@ -18,6 +18,7 @@ import symx  # noqa: E402
 from symx import core  # noqa: E402
 
 EXIT_OK, EXIT_VIOLATION, EXIT_HARNESS = 0, 1, 2
+VERBOSE = bool(os.environ.get('VERIF_VERBOSE'))
 
 
 def parse_args(pid, argv=None):
@@ -30,7 +31,9 @@ def parse_args(pid, argv=None):
 
 
 class Check:
-    def __init__(self, pid, args, functions_planned=()):
+    def __init__(self, pid, args, functions_planned=(), sub=False):
+        self.sub = sub
+        self.pending = []
         self.pid = pid
         self.args = args
         self.tier = args.tier
@@ -74,6 +77,8 @@ class Check:
         self.solver_s += dt
         self.queries += 1
         v = str(r)
+        if VERBOSE:
+            print('  [%6.2fs] %-8s %s' % (dt, v, name), flush=True)
         model = s.model() if v == 'sat' else None
         return v, model
 
@@ -97,6 +102,9 @@ class Check:
     # -- violations --------------------------------------------------------------
     def report_violation(self, key, what, replay):
         """A violation that REPRODUCED on the real code.  key identifies call site + input class."""
+        if self.sub:
+            self.pending.append((key, what, replay))
+            return 'pending:%d' % (len(self.pending) - 1)
         for k in self.known:
             if k['status'] == 'open' and k['key'] == key:
                 line = 'KNOWN-FINDING: property=%s %s' % (self.pid, k['what'])
@@ -114,6 +122,38 @@ class Check:
         print('VIOLATION property=%s replay=%s' % (self.pid, path), flush=True)
         print('  key=%s: %s' % (key, what), flush=True)
         return 'violation'
+
+    # -- parallel sub-checks -----------------------------------------------------
+    def export(self):
+        return dict(obls=self.obls, samples=self.samples, pending=self.pending, solver_s=self.solver_s,
+                    queries=self.queries, paths=self.paths, paths_truncated=self.paths_truncated, twins=self.twins,
+                    functions=sorted(self.functions), bounds=self.bounds, notes=self.notes)
+
+    def merge(self, st):
+        verdicts = {}
+        for i, (key, what, replay) in enumerate(st['pending']):
+            verdicts['pending:%d' % i] = self.report_violation(key, what, replay)
+        for o in st['obls']:
+            o = dict(o)
+            o['verdict'] = verdicts.get(o['verdict'], o['verdict'])
+            self.obls.append(o)
+        for smp in st['samples']:
+            if len(self.samples) < 12:
+                if isinstance(smp, dict) and smp.get('verdict') in verdicts:
+                    smp = dict(smp, verdict=verdicts[smp['verdict']])
+                self.samples.append(smp)
+        self.solver_s += st['solver_s']
+        self.queries += st['queries']
+        self.paths += st['paths']
+        self.paths_truncated += st['paths_truncated']
+        self.twins.update(st['twins'])
+        self.functions = set(self.functions) | set(st['functions'])
+        for k, v in st['bounds'].items():
+            if isinstance(v, list):
+                self.bounds.setdefault(k, []).extend(v)
+            else:
+                self.bounds[k] = v
+        self.notes.extend(st['notes'])
 
     # -- evidence ----------------------------------------------------------------
     def finish(self, explanation, rule=None):
@@ -219,7 +259,7 @@ def model_inputs(model, inputs):
 
 
 def prove_paths(ck, name, fn, goals, replay, max_paths=500, assumptions=(), expect_exc=(),
-                timeout_ms=None, wall_s=None, tol_goals=None):
+                timeout_ms=None, wall_s=None, tol_goals=None, sqrt_mode='fresh', twin_timeout_ms=3000):
     """Explore fn symbolically, and for every feasible path and every goal ask the solver for a
     counterexample.  goals(out) -> [(goal_name, z3 Bool)];  replay(concrete_inputs, goal_name,
     out) -> None (holds on the real code => spurious) or (key, what, replay_dict).
@@ -228,7 +268,7 @@ def prove_paths(ck, name, fn, goals, replay, max_paths=500, assumptions=(), expe
     goal has a counterexample."""
     qt = 10000 if ck.tier == 'quick' else 60000
     paths = symx.explore(fn, max_paths=max_paths, query_timeout_ms=qt, wall_s=wall_s,
-                         assumptions=assumptions)
+                         assumptions=assumptions, sqrt_mode=sqrt_mode)
     ck.account(paths)
     reach = 0
     for pi, p in enumerate(paths):
@@ -238,7 +278,7 @@ def prove_paths(ck, name, fn, goals, replay, max_paths=500, assumptions=(), expe
             raise symx.HarnessError('%s: path %d raised %r' % (name, pi, p.exc)) from p.exc
         out = p.value
         prem = p.pc + p.axioms
-        v, _ = ck.decide(name + ':twin', prem, z3.BoolVal(True), timeout_ms)
+        v, _ = ck.decide(name + ':twin', prem, z3.BoolVal(True), twin_timeout_ms)
         if v == 'unsat':
             continue            # infeasible path (can happen after unknown feasibility answers)
         reach += 1
@@ -277,3 +317,26 @@ def prove_paths(ck, name, fn, goals, replay, max_paths=500, assumptions=(), expe
                     ck.record(oname, verdict, detail=what, sample=sample)
     ck.twin(name, reach > 0)
     return paths
+
+
+def _sub_job(a):
+    """Worker: run one part of a check in its own process with its own shadow load."""
+    modname, fname, pid, args, extra = a
+    import importlib
+    mod = importlib.import_module(modname)
+    ck = Check(pid, args, sub=True)
+    sh = symx.load()
+    mm = symx.real_mininec()
+    with symx.shadow.trace_functions(sh):
+        getattr(mod, fname)(ck, sh, mm, *extra)
+    ck.functions = sh.entered
+    return ck.export()
+
+
+def run_parallel(ck, modname, parts, procs=None):
+    """parts: [(function name, extra args tuple)]; each runs as fn(ck, sh, mm, *extra) in a worker."""
+    import multiprocessing as mp
+    jobs = [(modname, fn, ck.pid, ck.args, tuple(extra)) for fn, extra in parts]
+    with mp.Pool(procs or min(16, os.cpu_count() or 1)) as pool:
+        for st in pool.imap_unordered(_sub_job, jobs, chunksize=1):
+            ck.merge(st)
